@@ -686,43 +686,46 @@ PROPS["C42"] = dict(
 PROPS["C11"] = dict(
     corr_module="Corr.C11",
     streams={
-        "exact": dict(runner="C11_run", in_t="C11_in", out_t="C11_out", shard=60),
-        "trunc": dict(runner="C11_trunc_run", in_t="C11_trunc_in", out_t="C11_trunc_out", shard=60),
+        # *_fixed = the composition as of commit d76304f; C11_run / C11_trunc_run model the code before it
+        "exact": dict(runner="C11_run_fixed", in_t="C11_in", out_t="C11_out", shard=60),
+        "trunc": dict(runner="C11_trunc_run_fixed", in_t="C11_trunc_in", out_t="C11_trunc_out", shard=60),
         # stream "ask" is an observation (tags only): the property is about Memvid::search
     },
     n_quick=540, n_thorough=6000,
     harness_timeout=3000,
-    rule="real memories of 3-60 short documents (60 requests per memory, so n/60 memories + the fixed 6-document witness memory of F-C11-1): every document has its OWN 7-letter vocabulary "
+    rule="real memories of 3-60 short documents (60 requests per memory, so n/60 memories + the fixed 6-document witness memory of F-C11-1 (fixed) and F-C11-2): every document has its OWN 7-letter vocabulary "
          "(2-5 words) plus 0-3 words of a small shared pool ('distinct' / 'mixed'), one memory in six shares a single vocabulary ('oneVocab', all sketches alike); explicit timestamps increasing / decreasing / random / "
          "heavily tied and not monotone in the id; some frames deleted (biased to frame 0, frame 1 and the earliest timestamp), extra commits, close+reopen in 1/4; "
          "queries: a word of one document, a shared word (several frames on both sides of the cut-off), two words (AND), OR, an absent word, date-range-only, each optionally with date:[a TO b] (RFC 3339 bounds on / around frame timestamps, one side open, inverted); "
          "cut-offs chosen AFTER looking at what the query matches and at its sketch candidates: as_of_frame / as_of_ts on, one below and one above a matching frame (id and timestamp ties), below / above the whole range, 0, u64::MAX, i64::MAX, none, "
-         "and in ~25% of the requests strictly below every sketch candidate (replay set and sketch set disjoint on purpose); no_sketch in 1/4; top_k 100 (non-truncating) or 0 / 1 / 2-4 (truncating). "
+         "and in ~25% of the requests strictly below every sketch candidate (replay set and sketch set disjoint on purpose: the branch that used to leak the future); no_sketch in 1/4; top_k 100 (non-truncating) or 0 / 1 / 2-4 (truncating). "
          "Compared per request: exact stream (top_k and doc_limit do not truncate: no next_cursor in either response and active frames <= max(4*top_k,20)) -- the sorted hit frame ids of Memvid::search must equal the model's "
          "(filter F composed by the model from frame table, time index, date range, cut-offs, has_sketches, has_text_terms, no_sketch and the observed sketch candidates; hits = engine oracle U restricted to F, "
          "U = hits of the same query with no as_of_*, no_sketch and top_k 10000); trunc stream -- hits are a subset of the model's set and number min(|set|, max(top_k,1)); both streams also compare the harness's "
-         "class predicate with Coq's known_fallback. Property oracle on the implementation alone: a hit with id > as_of_frame or timestamp > as_of_ts; in the non-truncating regime a hit that the same request without as_of_* does not return. "
-         "Tags give the split truncating / non-truncating, cut-off kinds, replay set empty / proper / all, sketch stage applied, fallback reached. "
+         "evaluation of the empty-intersection predicate with Coq's sketch_disjoint. Property oracle on the implementation alone: a hit with id > as_of_frame or timestamp > as_of_ts (no known class: always a VIOLATION); "
+         "in the non-truncating regime a hit that the same request without as_of_* does not return (known class F-C11-2 only if the as-of request is in the empty-intersection branch and the added hit is not a sketch candidate). "
+         "Tags give the split truncating / non-truncating, cut-off kinds, replay set empty / proper / all, sketch stage applied, sketch dropped. "
          "non-trivial = as_of_* given and the query matches at least one frame; distinct by digest of (frame table, query, cut-offs, flags, candidates, U)",
-    level_text="Unbounded theorems over the line-by-line model of the candidate-filter composition at the top of Memvid::search (date range -> temporal -> replay ids -> sketch candidates, all early empty-response exits) and of "
-               "get_replay_frame_ids, over abstract frame-id sets, for every frame table, time index, request, sketch candidate set and engine: get_replay_frame_ids is exactly {active, id <= n, timestamp <= t}; whenever as_of_* is given the final "
-               "candidate filter exists and is a subset of the replay set, so (engine returns only members of its filter) every hit is an active frame with id <= n and timestamp <= t; adding as_of_* never adds a hit "
-               "(engine monotone in the filter = non-truncating regime). The property AS STATED IS REFUTED: when the filter built so far and the non-empty sketch candidate set are disjoint the code replaces the filter by the sketch set "
-               "('Fall back to sketch-only'), dropping as_of_* (C11_as_of_refuted / C11_as_of_ts_refuted by vm_compute, reproduced on real memories, finding F-C11-1); all theorems are proved outside exactly that class (known_fallback), "
-               "the class is characterised (the engine is handed only ids outside the replay set), and the same theorems are proved with NO class excluded for the repaired composition (empty response instead of the fallback; "
-               "runner C11_run_fixed ready).",
-    level_note="Property as stated REFUTED in one class recorded as known finding F-C11-1 (sketch-fallback-drops-asof); proved outside it. Monotonicity ('never adds a hit') is stated for requests that top_k and doc_limit do not truncate: "
-               "with truncation the filtered request legitimately surfaces lower-ranked frames that the unfiltered one cut off, the evidence tags count both regimes. Trusted: Coq kernel + vm_compute; hand-written model Model/AsOf.v "
-               "(tied by the exact/trunc streams on real memories); the engine (Tantivy / legacy lex fallback / filters-only scan + ParsedQuery::evaluate) is a Section variable with hypotheses 'returns only members of the filter', "
-               "'monotone in the filter', 'a filter never adds a hit', instantiated in the correspondence by the table of what the real engine returns unfiltered; find_sketch_candidates, required_date_range and the time index are inputs "
-               "observed through public API / the query_facts hook; the temporal_track stage is modelled but compiled out of the default build. `ask` forwards as_of_* to search but its timeline fallback ignores them "
-               "(observed, stream 'ask', not part of this property).",
+    level_text="Unbounded theorems over the line-by-line model of the candidate-filter composition at the top of Memvid::search (date range -> temporal -> replay ids -> sketch candidates, all early empty-response exits, "
+               "as of commit d76304f) and of get_replay_frame_ids, over abstract frame-id sets, for every frame table, time index, request, sketch candidate set and engine. First clause, NO class excluded: get_replay_frame_ids is exactly "
+               "{active, id <= n, timestamp <= t}; whenever as_of_* is given the final candidate filter exists and is a subset of the replay set, so (engine returns only members of its filter) every hit is an active frame with id <= n and "
+               "timestamp <= t. Second clause ('adding either filter never adds a hit', engine monotone in the filter = non-truncating regime): REFUTED as stated (C11_monotone_refuted by vm_compute, reproduced on real memories, finding F-C11-2): "
+               "when the filter built so far and the non-empty sketch candidate set are disjoint the as-of request drops the sketch and returns a genuine in-window match that the sketch rejects, which the request without as_of_* (still sketch-filtered) misses; "
+               "proved outside exactly that branch (sketch_disjoint), proved for ALL inputs under the hypothesis that the sketch has no false negative for the query, proved unconditionally for requests that do not run the sketch stage, for dropping "
+               "both cut-offs and for tightening / adding either one; the class is characterised (every hit of such a request is a non-candidate of the sketch and inside the window). The refutation of the code before d76304f "
+               "(sketch-only fallback returned frames from the future, fixed finding F-C11-1) is kept as historical lemmas C11_old_*; runners C11_run / C11_trunc_run model that old code and disagree with the implementation in that branch.",
+    level_note="First clause proved for all inputs. Second clause REFUTED in one class recorded as known finding F-C11-2 (sketch-miss-surfaced-by-asof; root cause is sketch recall, C09); proved outside it and under a no-false-negative hypothesis. "
+               "Monotonicity is stated for requests that top_k and doc_limit do not truncate: with truncation the filtered request legitimately surfaces lower-ranked frames that the unfiltered one cut off, the evidence tags count both regimes. "
+               "Trusted: Coq kernel + vm_compute; hand-written model Model/AsOf.v (tied by the exact/trunc streams on real memories); the engine (Tantivy / legacy lex fallback / filters-only scan + ParsedQuery::evaluate) is a Section variable "
+               "with hypotheses 'returns only members of the filter', 'monotone in the filter', 'a filter never adds a hit', instantiated in the correspondence by the table of what the real engine returns unfiltered; find_sketch_candidates, "
+               "required_date_range and the time index are inputs observed through public API / the query_facts hook; the temporal_track stage is modelled but compiled out of the default build. `ask` forwards as_of_* to search but its "
+               "timeline fallback ignores them (observed, stream 'ask', not part of this property).",
     trusted_base=["engine oracle: U = frame ids returned by the real Memvid::search for the same query with no as_of_*, no_sketch = true, top_k = 10000; the model's engine(F) = U restricted to F",
                   "sketch candidates, has_sketches, the date range and the time index entries are read from the implementation (find_sketch_candidates, has_sketches, verif_hooks::query_facts, timeline)"],
     assumptions=["engine hypotheses (Section variables in Proofs/AsOfProofs.v, satisfiable: Example C11_engine_hypotheses_satisfiable): with a candidate filter the engine returns only members of it; for monotonicity, it is monotone in the filter and a filter never adds a hit (non-truncating regime)",
                  "default cargo features (lex, pdf_extract, simd): the temporal_track stage and the temporal-anchor branch of frame_ids_in_date_range are compiled out; modelled as an input / not modelled respectively",
-                 "frame ids are unique in the frame table (NoDup hypothesis of the per-frame theorems; frame.id is the table index)",
-                 "known finding outside which the theorems hold: sketch stage applies with a non-empty candidate set disjoint from the non-empty filter built so far (known_fallback)"],
+                 "frame ids are unique in the frame table (NoDup hypothesis of the per-frame theorem; frame.id is the table index)",
+                 "second clause only: known finding F-C11-2 outside which it holds = the sketch stage applies with a non-empty candidate set disjoint from the non-empty filter built so far (sketch_disjoint); alternatively the hypothesis 'everything the engine returns unfiltered is a sketch candidate'"],
     allowed_axioms=[],
 )
 
@@ -762,5 +765,5 @@ PROPS["C16"] = dict(
 )
 
 # checks whose model is being updated to a repaired /repo: not claimed until re-merged
-for _p in ("C11", "C42"):
+for _p in ("C42",):
     if _p in PROPS: PROPS[_p]["hold"] = True
